@@ -276,9 +276,14 @@ def project_accounting(case, solution):
     vehicles = [{'id': vid, 'shifts': len(v['shifts']),
                  'conditional': [{'break': len(sh.get('breaks') or []), 'reload': len(sh.get('reloads') or []), 'recharge': len((sh.get('recharges') or {}).get('stations') or [])} for sh in v['shifts']]}
                 for v in P['fleet']['vehicles'] for vid in v['vehicleIds']]
-    tours = [{'vehicle': t['vehicleId'], 'shift': t['shiftIndex'] + 1, 'acts': [{'job': a['jobId'], 'type': a['type']} for s in t['stops'] for a in s['activities']]} for t in solution.get('tours', [])]
+    def stat(x):
+        t = x['times']
+        return {'cost': int(round(x['cost'] * 1e3)), 'distance': x['distance'], 'duration': x['duration'], 'driving': t['driving'], 'serving': t['serving'],
+                'waiting': t['waiting'], 'brk': t['break'], 'commuting': t.get('commuting', 0), 'parking': t.get('parking', 0)}
+    tours = [{'vehicle': t['vehicleId'], 'shift': t['shiftIndex'] + 1, 'stat': stat(t['statistic']),
+              'acts': [{'job': a['jobId'], 'type': a['type']} for s in t['stops'] for a in s['activities']]} for t in solution.get('tours', [])]
     un = [{'job': u['jobId'], 'nreasons': len(u.get('reasons') or [])} for u in solution.get('unassigned') or []]
-    return {'id': case['id'], 'jobs': jobs, 'vehicles': vehicles, 'tours': tours, 'unassigned': un}
+    return {'id': case['id'], 'jobs': jobs, 'vehicles': vehicles, 'tours': tours, 'unassigned': un, 'stat': stat(solution['statistic'])}
 
 
 def accounting_qualifier(inv, case, rec):
@@ -333,6 +338,7 @@ def clustering_pass(pid, tier, cases, rnd, verdict):
         c = copy.deepcopy(base); c['id'] = 'canary:both'; c['unassigned'].append({'job': a['job'], 'nreasons': 1}); cans.append((c, 'PartitionJobs'))
         c = copy.deepcopy(base); c['id'] = 'canary:foreign'; c['tours'][0]['acts'].append({'job': 'ghost', 'type': 'delivery'}); cans.append((c, 'NoForeignIds'))
         c = copy.deepcopy(base); c['id'] = 'canary:vehicle'; c['tours'][0]['vehicle'] = 'nobody'; cans.append((c, 'TourNamesVehicleShift'))
+        c = copy.deepcopy(base); c['id'] = 'canary:overall-parking'; c['stat']['parking'] += 7; cans.append((c, 'OverallIsSumOfTours'))
         c = copy.deepcopy(base); c['id'] = 'canary:ghost-break'
         for v in c['vehicles']:
             for sh in v['conditional']: sh['break'] = 0
@@ -356,8 +362,9 @@ def clustering_pass(pid, tier, cases, rnd, verdict):
         if expect not in got[c['id']]:
             raise ToolError('accounting judge vacuity: %s not rejected by %s' % (c['id'], expect))
     by_id = {c['id']: c for c in ccases}
+    mine = {'OverallIsSumOfTours'} if pid == 'C03' else {'PartitionJobs', 'NoForeignIds', 'TourNamesVehicleShift', 'TourServesJob', 'TourUniqueVehicleShift', 'PickupBeforeDelivery', 'ConditionalWithinDefined'}
     for name, _, rid in jr.fails:
-        if rid.startswith('canary:'):
+        if rid.startswith('canary:') or name not in mine:
             continue
         q = accounting_qualifier(name, by_id[rid], next(r for r in recs if r['id'] == rid))
         # the recorded defects of conditional jobs do not depend on clustering: same key as in the other passes
@@ -413,8 +420,7 @@ def canaries(rec):
 def judge(tag, recs, workers=1):
     os.makedirs(os.path.join(common.WORK, tag), exist_ok=True)
     path = os.path.join(common.WORK, tag, 'records.ndjson')
-    common.write_ndjson(path, recs)
-    res = common.tlc('OracleVrp', env={'RECS': path}, workers=workers, name=tag, timeout=3000, xmx='6g')
+    res = common.tlc_records('OracleVrp', recs, 'RECS', path, workers=workers, name=tag, timeout=3000, xmx='6g')
     if res.distinct != len(recs):
         raise ToolError('oracle walked %d of %d records (see work/tlc-%s.log)' % (res.distinct, len(recs), tag))
     return res
@@ -594,7 +600,7 @@ def run(pid, tier):
                 continue
             verdict.add('%s/ReportedLocationIsOfTheProblem/coords' % pid, 'record %s reports %s, which is no location of the problem' % (cid, json.dumps(unknown[:2])),
                         {'case': dict(cases_by_id[cid], problem=cases_by_id[cid]['problem_coords'], matrices=None), 'solution': outcomes[cid]['solution_coords']})
-    clustering = clustering_pass(pid, tier, cases + rel_cases, rnd, verdict) if pid == 'C02' else None
+    clustering = clustering_pass(pid, tier, cases + rel_cases, rnd, verdict) if pid in ('C02', 'C03') else None
     rc = verdict.finish()
 
     feats = collections.Counter(f for c in cases_by_id.values() for f in c.get('features', []))
